@@ -11,6 +11,7 @@ use crate::progsweep;
 use crate::docsweep;
 use crate::cont;
 use crate::drops;
+use crate::loopx;
 use crate::seqx::Out;
 use serde_json::{json, Value};
 
@@ -270,6 +271,24 @@ pub fn plan(prop: &str, tier: &str) -> Option<Plan> {
                 assumptions: vec!["node values are released by Drop of the payload; the tracker distinguishes the original value from clones the library may make".into()],
             })
         }
+        "C20" => {
+            // (n, max_l, two_ops, shards)
+            let table: Vec<(usize, usize, bool, usize)> = if tier == "quick" { vec![(2, 2, false, 2), (3, 2, false, 8)] } else { vec![(2, 3, true, 8), (3, 2, true, 16), (3, 3, false, 16)] };
+            let mut jobs = Vec::new();
+            for f in ALL {
+                for (n, l, two, sh) in &table {
+                    jobs.extend(sharded(prop, "loopx", f, tier, json!({"n": n, "max_l": l, "two_ops": two}), *sh));
+                }
+            }
+            Some(Plan {
+                jobs,
+                level: "exploration".into(),
+                rule: "every canonical shape up to the bound x every root x every loop kind (edge iterators iter_out/iter, iter_in, `for e in &n`; bfs, dfs, pfs-min, pfs-max, preorder, postorder, transposed variants for the directed flavours, closure installed as for_each and as filter, with every target and without, cycle searches) x every script 'at callback step i perform o' for every step the unscripted loop reaches and every o in {connect, try_connect, disconnect, isolate over all operands, degree/is_connected/find queries, a nested complete edge loop, a nested bfs search, clone+drop of a handle}; thorough adds every second mutating operation at every later step. Oracle: no panic / self-deadlock (lock monitor) / crash; the loop ends within 4*(edges + edges added by the script)+8 callbacks; every yielded edge exists in the graph at the moment it is yielded with its true endpoints and value (checked by a fresh iteration from inside the callback); handles taken before the loop still work; the final state satisfies the mirror/symmetry invariant and equals the state reached by the same operations outside any loop. nontrivial = scripts with a mutating operation".into(),
+                bounds: json!({"(nodes, max_edges, two_op_scripts, shards)": table}),
+                exhaustive: true,
+                assumptions: vec!["a traversal that never calls back cannot be stopped by the closure; the worker watchdog reports it as a hang".into()],
+            })
+        }
         "C17" => {
             let known = KnownFindings::load(&format!("{}/known_findings.json", crate::verif_dir()));
             let mut jobs = Vec::new();
@@ -321,6 +340,7 @@ pub fn work(job: &Job, out: &mut Out) {
         "csweep" => crate::with_flavor!(job.flavour.as_str(), F => csweep::sweep::<F>(job, out)),
         "sched" => crate::with_sync_flavor!(job.flavour.as_str(), F => sched::sweep::<F>(job, out)),
         "docsweep" => docsweep::sweep(job, out),
+        "loopx" => crate::with_flavor!(job.flavour.as_str(), F => loopx::sweep::<F>(job, out)),
         "drops" => crate::with_flavor!(job.flavour.as_str(), F => drops::explore::<F>(job, out)),
         "cont" => crate::with_flavor!(job.flavour.as_str(), F => cont::explore::<F>(job, out)),
         "progsweep" => match job.property.as_str() {
@@ -344,6 +364,7 @@ pub fn replay(property: &str, engine: &str, flavour: &str, case: &Value) -> Vec<
         "csweep" => crate::with_flavor!(flavour, F => csweep::replay::<F>(property, case)),
         "sched" => crate::with_sync_flavor!(flavour, F => sched::replay::<F>(property, case)),
         "docsweep" => docsweep::replay(property, case),
+        "loopx" => crate::with_flavor!(flavour, F => loopx::replay::<F>(property, case)),
         "drops" => crate::with_flavor!(flavour, F => drops::replay::<F>(property, case)),
         "cont" => crate::with_flavor!(flavour, F => cont::replay::<F>(property, case)),
         "progsweep" => match property {
